@@ -187,6 +187,10 @@ func iterateMedia(context *Context, v reflect.Value) {
 }
 
 func iterateNode(context *Context, v reflect.Value) {
+	// The children are a slice that is walked right here: a node can be reached
+	// again through it (children[0] = node), so this walk needs the depth bound
+	// that the slice iterator would have applied.
+	context.descend()
 	context.EventReceiver.OnNode()
 	iterateInterface(context, v.Field(types.NodeFieldIndexValue))
 	children := v.Field(types.NodeFieldIndexChildren)
@@ -194,6 +198,7 @@ func iterateNode(context *Context, v reflect.Value) {
 		iterateInterface(context, children.Index(i))
 	}
 	context.EventReceiver.OnEndContainer()
+	context.ascend()
 }
 
 func iterateEdge(context *Context, v reflect.Value) {
